@@ -5,11 +5,9 @@
    theorems are in Properties/C04.v (C04_read_total, C04_rates_positive, C04_tick_rate, C04_time_reject, C04_bad_value_in_style_ignored).
    The one finding that remains, unknown-attribute-not-logged, is about log records, which are not modelled: the model reads an element
    with an attribute it does not know exactly as without it (below), the missing log record is observed by the check on the code.
-   Proposed (findings_proposed/C04.txt seq-region-break-hides-nested-style): in a region with timeContainer="seq", after a child whose
-   end is indefinite, a child that is no content element makes the reader leave the children loop, and the nested styles that follow
-   it are not read, while in the document without that child they are: the transparency statement of Properties/C04.v holds outside
-   the shape Spec/TtmlContentSpec.v style_after_break only. *)
-From TT Require Import Base.Prelude Base.ImscXml Model.ImscTime Model.ImscStyles Model.ImscTiming Spec.TtmlContentSpec Proofs.C04.Transparent.
+   seq-region-break-hides-nested-style (a non-content child after a child with an indefinite end hid the nested styles of a seq region) is
+   repaired as well: C04_noncontent_children_transparent is unconditional, Properties/C04.v C04_example_seq_region_nested_style shows the shape. *)
+From TT Require Import Base.Prelude Base.ImscXml Model.ImscTime Model.ImscStyles Model.ImscTiming.
 From Coq Require Import QArith.
 Local Open Scope Z_scope.
 
@@ -21,18 +19,3 @@ Theorem C04_unknown_attribute_same_result :
   process ev0 pc0 (X T_p [((NS_XML, [98; 97; 115; 101]), [120])] (Some [97]) None []) = process ev0 pc0 (X T_p [] (Some [97]) None []).
 Proof. reflexivity. Qed.
 Print Assumptions C04_unknown_attribute_same_result.
-
-(* <region xml:id="r" timeContainer="seq"><p>a</p><metadata/><style tts:color="x"/></region>: the nested style is not read; without the
-   metadata element it is *)
-Definition ev1 : env :=
-  mkEnv 1 (30 # 1) [] (fun q _ => if qname_eqb q (NS_TTS, [99; 111; 108; 111; 114]) then Some (1, SO 0) else None) (fun _ _ => true) [].
-Definition seq_region : xml :=
-  X T_region [(A_id, [114]); (A_timeContainer, V_seq)] None None
-    [X T_p [] (Some [97]) None []; X T_metadata [] None None []; X T_style [((NS_TTS, [99; 111; 108; 111; 114]), [120])] None None []].
-Theorem C04_noncontent_children_transparent_refuted :
-  exists ev pc x, style_after_break x = true /\ ~ pres_rel (process ev pc x) (process ev pc (strip x)).
-Proof.
-  exists ev1, pc0, seq_region. split; [reflexivity|]. intro H. vm_compute in H.
-  destruct H as (_ & _ & _ & H & _). inversion H.
-Qed.
-Print Assumptions C04_noncontent_children_transparent_refuted.
